@@ -54,7 +54,8 @@ class C03(Prop):
                 "put_labels_unchanged", "put_kind", "maybeCast_table_agrees", "maybeCast_table_lossless",
                 "maybeCast_table_covers_numeric_object", "putBool_spec", "putBool_shape_error", "put_writes_what_take_reads", "putResult_cells", "put_label_eq", "put_label_spec", "put_label_scalar", "put_label_array",
                 "put_ok_iff", "put_unresolved_error", "put_misfit_error", "put_normalize_error", "put_error_generic", "take_put_generic",
-                "take_put", "take_put_scalar", "take_put_array", "put_cast_only_kind", "maybeCastKind_spec", "put_mask_length_checked_example"]
+                "take_put", "take_put_scalar", "take_put_array", "put_cast_only_kind", "maybeCastKind_spec", "put_mask_length_checked_example",
+                "putIndices_cases", "put_zero_length", "put_zero_length_counterexample"]
     rule = ("arrays of rank 0-4 (bool/int/float/object values) and every index form of C01/C02 (label and position "
             "scalars, lists with repeats, masks, slices, dicts by name/position, axis=, Ellipsis, full N-d boolean masks); "
             "scalar, 0-d and broadcastable array right-hand sides of kind bool/int/float/str; spellings a[idx]=v, "
@@ -70,7 +71,15 @@ class C03(Prop):
             "otherwise readable index: must raise IndexError like the read and leave the array untouched; refused writes "
             "with cast=True and a widening right-hand side (a position beyond the axis or an absent label, as a scalar "
             "or inside a list, in an otherwise readable index): IndexError, and - as for EVERY assignment that raises - "
-            "values, dtype kind, axes and metadata are what they were. A fixed grid runs every (array "
+            "values, dtype kind, axes and metadata are what they were. Zero-length stratum: arrays of rank 1-3 with ONE zero-length "
+            "axis, position (mostly) and label mode, on the empty axis a full / empty / out-of-range slice, an empty list, "
+            "positions (necessarily beyond the axis) as a scalar or in a list, an empty mask, on the other axes positions "
+            "inside and beyond the axis (scalar, list), slices, masks (also all-False), full slices, shorter tuples; scalar, "
+            "selection-shaped and broadcast array right-hand sides (shape from the lengths of the index entries when the "
+            "read is refused); compared with the mirror: outcome and error class, kind, axes (put_zero_length: nothing is "
+            "written; NumPy looks at the positions in lists only when every index array of orthogonal_indexer's key - "
+            "not the integers, not the leading / trailing full slices - selects something). The general stream no longer "
+            "excludes position-mode assignments on arrays with a zero-length axis. A fixed grid runs every (array "
             "dtype, assigned kind/flavour) pair with cast through the setter, an indexed put and a boolean put. Array and "
             "axis metadata are set on every array and must come through unchanged. Independently of the model, an oracle "
             "recomputes every cell from the positions the same index reads (index-tracking array) and the broadcast "
@@ -157,10 +166,6 @@ class C03(Prop):
                 continue            # (tolerance look-ups: put(..., tol=) and .nloc[...] = v; a modest share of the stream)
             if base.get("tol") and base["index"]["form"] == "tuple" and rng.random() < 0.5:
                 self.tol_other_form(rng, base)
-            if base["mode"] == "position" and any(len(ax["labels"]) == 0 for ax in base["array"]["axes"]):
-                # NumPy's bounds checking of index arrays on zero-length dimensions depends on which keys
-                # orthogonal_indexer leaves as slices; not part of any property: not generated
-                continue
             return base
 
     def tol_other_form(self, rng, base):
@@ -256,6 +261,80 @@ class C03(Prop):
                 c["rflavour"] = "frac"
             if arr["vkind"] == "i" and (c["rflavour"] == "f32" or rng.random() < 0.4):
                 arr["vbase"] = 2 ** 24 + 1
+        return c
+
+
+    def gen_zerolen(self, rng):
+        """arrays with ONE zero-length axis, indexed by position (mostly) or by label: on the zero-length axis a full
+        slice, an (empty or out-of-range) slice, an empty list, a position / a list of positions (necessarily beyond the
+        axis), an empty mask; on the other axes positions / lists inside and beyond the axis, slices, masks (also
+        all-False) and full slices.  No cell exists, so nothing can be written: the question is WHEN the assignment is
+        refused - NumPy checks the positions of an index array only when the index arrays that orthogonal_indexer builds
+        (everything but integers and the leading / trailing runs of full slices, which stay slices) select something"""
+        rank = rng.choice([1, 2, 2, 2, 3, 3])
+        arr = gen.rand_array(rng, rank=rank, maxn=3, minn=1)
+        z = rng.randrange(rank)
+        arr["axes"][z] = gen.rand_axis(rng, arr["axes"][z]["name"], n=0)
+        arr["vkind"] = rng.choice(["f", "i", "O"])
+        axes = arr["axes"]
+        posmode = rng.random() < 0.75
+        option = rng.choice(["label", "label", "position"])
+        if posmode:
+            sp = rng.choice(["ix", "iloc", "take_position"] if option == "label" else ["getitem_position_option", "iloc", "take_position"])
+        else:
+            sp = rng.choice(["getitem", "take", "loc", "take_label"] if option == "label" else ["loc", "take_label", "ix_from_position"])
+        ixs, kinds = [], []
+        for d, ax in enumerate(axes):
+            n = len(ax["labels"])
+            r = rng.random()
+            if posmode:
+                if r < 0.28:
+                    ix, k = ["sl", None, None, None], "full"
+                elif r < 0.40:
+                    b = lambda: rng.choice([None] + list(range(-n - 2, n + 3)))
+                    s, e = b(), b()
+                    ix, k = ["sl", None if s is None else ["n", s, 1], None if e is None else ["n", e, 1], rng.choice([None, None, 1, 2, -1])], "slice"
+                elif r < 0.52:
+                    ix, k = ["sc", ["n", rng.randint(-n - 1, n + 1), 1]], "scalar"
+                elif r < 0.62:
+                    ix, k = ["li", []], "list_empty"
+                elif r < 0.88:
+                    ix, k = ["li", [["n", rng.randint(-n - 2, n + 2), 1] for _ in range(rng.randint(1, 3))]], "list"
+                else:
+                    ix, k = ["ma", [rng.random() < 0.4 for _ in range(n)]], "mask"
+            else:
+                if n == 0:
+                    ix, k = rng.choice([(["sl", None, None, None], "full"), (["li", []], "list_empty"), (["ma", []], "mask"),
+                                        (["sc", gen.absent_label(rng, ax)], "scalar"), (["li", [gen.absent_label(rng, ax)]], "list")])
+                elif r < 0.25:
+                    ix, k = ["li", []], "list_empty"
+                elif r < 0.4:
+                    ix, k = ["ma", [False] * n], "mask"
+                else:
+                    ix, k = c01.PROP.gen_ix_label(rng, ax)
+            ixs.append(ix); kinds.append(k)
+        if posmode and rank > 1 and rng.random() < 0.5:
+            # the decisive configuration: a list with a position beyond its axis next to a dimension that selects nothing
+            # (a full slice that stays a slice at the start / end of the key, or one that becomes an index array in the
+            # middle of it, an empty slice, an empty list, an empty mask)
+            d = rng.choice([k for k in range(rank) if k != z])
+            n = len(axes[d]["labels"])
+            ps = [["n", rng.randrange(n), 1] for _ in range(rng.randint(0, 2))]
+            ps.insert(rng.randint(0, len(ps)), ["n", rng.choice([n + rng.randint(0, 2), -n - 1 - rng.randint(0, 2)]), 1])
+            ixs[d], kinds[d] = ["li", ps], "list_beyond"
+            ixs[z], kinds[z] = rng.choice([(["sl", None, None, None], "full"), (["sl", None, None, None], "full"), (["sl", ["n", 0, 1], ["n", 0, 1], None], "slice"),
+                                           (["li", []], "list_empty"), (["ma", []], "mask")])
+        while len(ixs) > 1 and ixs[-1] == ["sl", None, None, None] and rng.random() < 0.3:
+            ixs.pop(); kinds.pop()              # (a shorter tuple: completed with full slices)
+        akind = arr["vkind"]
+        cast = rng.random() < 0.5
+        c = {"op": "put", "array": arr, "option": option, "spelling": sp, "mode": "position" if posmode else "label",
+             "as_array": rng.random() < 0.6, "bare": False, "index": {"form": "tuple", "ix": ixs},
+             "cast": cast, "rkind": rng.choice(["f", "i", "O"]) if cast else {"f": rng.choice(["f", "i"]), "i": "i", "O": rng.choice(["O", "f"])}[akind],
+             "inplace": rng.random() < 0.6, "rhs": rng.choice(["scalar", "scalar", "array", "array", "array_bcast"]),
+             "zerolen": True, "_ixkinds": kinds + ["zerolen", "zerolen_" + c_mode_tag(posmode)]}
+        if c["cast"] and c["rkind"] == "f":
+            c["rflavour"] = "frac"
         return c
 
     @staticmethod
@@ -392,7 +471,7 @@ class C03(Prop):
         for _ in range(n):
             r = rng.random()
             yield (self.gen_boolnd(rng) if r < 0.10 else self.gen_setter(rng) if r < 0.18 else self.gen_badmask(rng, tier) if r < 0.24
-                   else self.gen_refused(rng, tier) if r < 0.30 else self.gen_case(rng, tier))
+                   else self.gen_refused(rng, tier) if r < 0.30 else self.gen_zerolen(rng) if r < 0.40 else self.gen_case(rng, tier))
 
     # ------------------------------------------------------------ implementation side
     def build(self, arr):
@@ -446,6 +525,29 @@ class C03(Prop):
         finally:
             da.set_option("indexing.by", old)
 
+    @staticmethod
+    def zl_shape(c):
+        """shape of the selection of a position-mode tuple index, from the lengths of its entries alone (no bounds
+        check): None when an entry has no length of its own (a mask of another length, a zero step)"""
+        if c["mode"] != "position":
+            return None
+        axes = c["array"]["axes"]
+        ixs = list(c["index"]["ix"]) + [["sl", None, None, None]] * (len(axes) - len(c["index"]["ix"]))
+        shp = []
+        for ix, ax in zip(ixs, axes):
+            n = len(ax["labels"])
+            if ix[0] == "li":
+                shp.append(len(ix[1]))
+            elif ix[0] == "ma":
+                if len(ix[1]) != n:
+                    return None
+                shp.append(sum(1 for m in ix[1] if m))
+            elif ix[0] == "sl":
+                if ix[3] == 0:
+                    return None
+                shp.append(len(range(*slice(None if ix[1] is None else ix[1][1], None if ix[2] is None else ix[2][1], ix[3]).indices(n))))
+        return tuple(shp)
+
     def rhs_raw(self, c):
         """the assigned value as a scalar / ndarray, and its shape for the model (None = scalar)"""
         kind, fl = c["rkind"], c.get("rflavour")
@@ -460,6 +562,8 @@ class C03(Prop):
             return v, None
         pos = self.positions(c)
         shp = None if pos is None else tuple(pos.shape)
+        if shp is None and c.get("zerolen"):
+            shp = self.zl_shape(c)      # (the read is refused, the assignment need not be: see gen_zerolen)
         if shp and any(s == 0 for s in shp):
             # empty selection: nothing is written, but the right-hand side must still broadcast to its shape
             if c["rhs"] == "array":
@@ -733,7 +837,7 @@ class C03(Prop):
              "cast": c["cast"], "inplace": c["inplace"], "rhs": c["rhs"], "spelling": c["spelling"], "mode": c["mode"],
              "rhs_as": c.get("rhs_as", "plain"), "vdtype": c["array"].get("vcast", "default"),
              "tol": "nloc" if c["spelling"] == "nloc" else "tol=" if c.get("tol") else "none",
-             "stratum": "boolnd" if c.get("boolnd") is not None else "values_setter" if c.get("setter") else "badmask" if c.get("badmask") else "refused" if c.get("refused") else "index",
+             "stratum": "boolnd" if c.get("boolnd") is not None else "values_setter" if c.get("setter") else "badmask" if c.get("badmask") else "refused" if c.get("refused") else "zerolen" if c.get("zerolen") else "index",
              "modelled": self.modelled(c)}
         if c.get("boolnd") is not None:
             f["boolnd.mask"] = c.get("maskform", "ndarray")
@@ -752,6 +856,10 @@ class C03(Prop):
     def snippet(self, c):
         return ("import sys; sys.path.insert(0, '/verif/harness'); import json, core; from props.c03 import PROP; "
                 "case = json.load(open(REPLAY))['case']; print(PROP.impl(case))")
+
+
+def c_mode_tag(posmode):
+    return "position" if posmode else "label"
 
 
 def json_key(v):
